@@ -5,7 +5,9 @@ type nat =
 | O
 | S of nat
 
-val length : 'a1 list -> nat
+val fst : ('a1 * 'a2) -> 'a1
+
+val snd : ('a1 * 'a2) -> 'a2
 
 val app : 'a1 list -> 'a1 list -> 'a1 list
 
@@ -28,12 +30,24 @@ type z =
 | Zpos of positive
 | Zneg of positive
 
+val gmax : ('a1 -> 'a1 -> comparison) -> 'a1 -> 'a1 -> 'a1
+
+val gmin : ('a1 -> 'a1 -> comparison) -> 'a1 -> 'a1 -> 'a1
+
 module Nat :
  sig
   val eqb : nat -> nat -> bool
  end
 
 module Pos :
+ sig
+  type mask =
+  | IsNul
+  | IsPos of positive
+  | IsNeg
+ end
+
+module Coq_Pos :
  sig
   val succ : positive -> positive
 
@@ -43,23 +57,34 @@ module Pos :
 
   val pred_double : positive -> positive
 
+  type mask = Pos.mask =
+  | IsNul
+  | IsPos of positive
+  | IsNeg
+
+  val succ_double_mask : mask -> mask
+
+  val double_mask : mask -> mask
+
+  val double_pred_mask : positive -> mask
+
+  val sub_mask : positive -> positive -> mask
+
+  val sub_mask_carry : positive -> positive -> mask
+
+  val sub : positive -> positive -> positive
+
   val mul : positive -> positive -> positive
 
-  val iter : ('a1 -> 'a1) -> 'a1 -> positive -> 'a1
-
-  val size : positive -> positive
+  val size_nat : positive -> nat
 
   val compare_cont : comparison -> positive -> positive -> comparison
 
   val compare : positive -> positive -> comparison
 
-  val eqb : positive -> positive -> bool
+  val ggcdn : nat -> positive -> positive -> positive * (positive * positive)
 
-  val iter_op : ('a1 -> 'a1 -> 'a1) -> positive -> 'a1 -> 'a1
-
-  val to_nat : positive -> nat
-
-  val of_succ_nat : nat -> positive
+  val ggcd : positive -> positive -> positive * (positive * positive)
  end
 
 module Z :
@@ -80,25 +105,17 @@ module Z :
 
   val mul : z -> z -> z
 
-  val pow_pos : z -> positive -> z
-
-  val pow : z -> z -> z
-
   val compare : z -> z -> comparison
+
+  val sgn : z -> z
 
   val leb : z -> z -> bool
 
   val ltb : z -> z -> bool
 
-  val eqb : z -> z -> bool
-
-  val max : z -> z -> z
-
   val abs : z -> z
 
-  val to_nat : z -> nat
-
-  val of_nat : nat -> z
+  val to_pos : z -> positive
 
   val pos_div_eucl : positive -> z -> z * z
 
@@ -106,127 +123,154 @@ module Z :
 
   val div : z -> z -> z
 
-  val modulo : z -> z -> z
-
-  val log2 : z -> z
+  val ggcd : z -> z -> z * (z * z)
  end
 
-val nth_error : 'a1 list -> nat -> 'a1 option
+val zeq_bool : z -> z -> bool
+
+val map : ('a1 -> 'a2) -> 'a1 list -> 'a2 list
 
 val fold_left : ('a1 -> 'a2 -> 'a1) -> 'a2 list -> 'a1 -> 'a1
+
+val fold_right : ('a2 -> 'a1 -> 'a1) -> 'a1 -> 'a2 list -> 'a1
 
 val existsb : ('a1 -> bool) -> 'a1 list -> bool
 
 val forallb : ('a1 -> bool) -> 'a1 list -> bool
 
-val combine : 'a1 list -> 'a2 list -> ('a1 * 'a2) list
+val filter : ('a1 -> bool) -> 'a1 list -> 'a1 list
 
-type byte = z
+type q = { qnum : z; qden : positive }
 
-type bytes = byte list
+val inject_Z : z -> q
 
-type err =
-| ETrunc
-| EBadIndex
-| EBadHeader
-| EUnsupported
-| EFuel
+val qcompare : q -> q -> comparison
 
-type 'a res =
-| OK of 'a
-| Err of err
+val qeq_bool : q -> q -> bool
 
-val bind : 'a1 res -> ('a1 -> 'a2 res) -> 'a2 res
+val qle_bool : q -> q -> bool
 
-val take_exact : nat -> bytes -> (bytes * bytes) res
+val qplus : q -> q -> q
 
-val le_encode : nat -> z -> bytes
+val qmult : q -> q -> q
 
-val le_decode : bytes -> z
+val qopp : q -> q
 
-val pow256 : nat -> z
+val qminus : q -> q -> q
 
-val to_signed : nat -> z -> bytes
+val qinv : q -> q
 
-val from_signed : bytes -> z
+val qdiv : q -> q -> q
 
-val bit_length : z -> z
+val qred : q -> q
 
-val write_int : z -> bytes option
+type vec = { vx : q; vy : q; vz : q }
 
-val read_int : bytes -> (z * bytes) res
+val vsub : vec -> vec -> vec
 
-val write_bool : bool -> bytes
+val vscale : q -> vec -> vec
 
-val read_bool : bytes -> (bool * bytes) res
+val dot : vec -> vec -> q
 
-val write_bytes : bytes -> bytes option
+type mat = { r0 : vec; r1 : vec; r2 : vec }
 
-val read_bytes : bytes -> (bytes * bytes) res
+val mapply : mat -> vec -> vec
 
-type vty =
-| TInt
-| TBool
-| TFloat
-| TVec
-| TOri
-| TStr
-| TBytes
-| TNone
+val mT : mat -> mat
 
-type val0 =
-| VInt of z
-| VBool of bool
-| VFix of bytes
-| VBlob of bytes
-| VNone
+val qfloor : q -> z
 
-val fixed_width : vty -> nat
+val qabs : q -> q
 
-val write_value : vty -> val0 -> bytes option
+val qmax : q -> q -> q
 
-val read_value : vty -> bytes -> (val0 * bytes) res
+val qmin : q -> q -> q
 
-type node =
-| NFixed
-| NPrim of vty
-| NDet of nat list
-| NMux of nat * nat list
+val qltb : q -> q -> bool
 
-type dag = node list
+val qmod : q -> q -> q
 
-type seen = nat list
+val clip : q -> q -> q -> q
 
-val mem : nat -> seen -> bool
+val in_window : q -> q -> bool
 
-val ival : dag -> (nat -> val0) -> nat -> z option
+val qmin_list : q -> q list -> q
 
-val needs_sampling : dag -> nat -> bool
+val qmax_list : q -> q list -> q
 
-val py_index : z -> nat -> nat option
+type xform =
+| Old
+| Fixed
 
-val enc_node :
-  dag -> (nat -> val0) -> nat -> nat -> seen -> (bytes * seen) option
+val local_vec : xform -> mat option -> vec -> vec -> vec
 
-val enc_sample : dag -> (nat -> val0) -> nat list -> bytes option
+val world_ray : mat option -> vec -> vec
 
-type penv = (nat * val0) list
+val wrap_az : q -> q -> q
 
-val plook : nat -> penv -> val0 option
+val near_occluders : ('a1 -> q) -> q -> 'a1 list -> 'a1 list
 
-val ieval : dag -> penv -> nat -> z option
+val point_ray : (vec -> q) -> xform -> mat option -> vec -> vec -> vec
 
-val dec_node :
-  dag -> nat -> nat -> ((seen * penv) * bytes) -> ((seen * penv) * bytes) res
+val point_az :
+  q -> (q -> q -> q) -> (vec -> q) -> xform -> mat option -> vec -> vec -> q
 
-val dec_sample : dag -> nat list -> bytes -> (penv * bytes) res
+val point_alt :
+  (q -> q) -> (vec -> q) -> xform -> mat option -> vec -> vec -> q
 
-type header = { h_version : z; h_ast : bytes; h_opts : bytes }
+val ray_unblocked : ('a1 -> vec -> q list) -> q -> vec -> 'a1 list -> bool
 
-val write_header : header -> bytes
+val point_visible :
+  q -> (q -> q -> q) -> (q -> q) -> (vec -> q) -> ('a1 -> q) -> ('a1 -> vec
+  -> q list) -> xform -> vec -> mat option -> q -> q -> q -> vec -> 'a1 list
+  -> bool
 
-val bytes_eqb : bytes -> bytes -> bool
+val point_margin :
+  q -> (q -> q -> q) -> (q -> q) -> (vec -> q) -> xform -> vec -> mat option
+  -> q -> q -> q -> vec -> q
 
-val read_header : header -> bytes -> bytes res
+type window = { h_lo : q; h_hi : q; v_lo : q; v_hi : q }
 
-val values_have_diverged : z -> z -> z -> bool
+val to_back : q -> q -> q
+
+val view_windows :
+  q -> q -> q -> bool -> bool -> (q * q) -> (q * q) list -> window list option
+
+val edge_cross : (vec * vec) -> q option
+
+val crosses : (vec * vec) list -> bool * bool
+
+val closest_within : q -> q list -> q option
+
+val candidates : ('a1 -> q list) -> q -> 'a1 list -> ('a1 * q) list
+
+val blocked_by : ('a2 -> 'a1 -> q list) -> 'a2 -> ('a1 * q) -> bool
+
+val batch_survivors :
+  ('a1 -> q list) -> ('a2 -> 'a1 -> q list) -> q -> 'a1 list -> 'a2 list ->
+  ('a1 * q) list
+
+val rays_visible :
+  ('a1 -> q list) -> ('a2 -> 'a1 -> q list) -> q -> 'a1 list list -> 'a2 list
+  -> bool
+
+type sobj = { oid : nat; occluding : bool }
+
+val req_potential : sobj list -> nat -> nat -> sobj list
+
+val req_occluders : sobj list -> nat -> nat -> sobj list
+
+val op_occluders : sobj list -> nat option -> nat option -> sobj list
+
+type vkind =
+| MustSee
+| MustNotSee
+
+type vreq = { rk : vkind; rsrc : nat; rtgt : nat; rocc : sobj list }
+
+val observer_reqs :
+  bool -> sobj list -> ((vkind * nat) * nat) list -> vreq list
+
+val default_visibility_reqs :
+  bool -> sobj list -> (nat * nat) list -> (nat * nat) list -> nat -> nat
+  list -> vreq list
